@@ -72,6 +72,9 @@ func (c *ServerConn) ServeOnce(storageClient StorageClient, stats *Stats) (err e
 		if e := recover(); e != nil {
 			logger.Errorf("mc panic(%#v), cmd %s, keys %v, stack: %s",
 				e, req.Cmd, req.Keys, utils.GetStack(2000))
+			// no reply can be written for this command any more: close the
+			// connection instead of leaving the client waiting for one
+			c.Shutdown()
 		}
 		req.Clear()
 		if resp != nil {
